@@ -50,6 +50,16 @@ func autoDetectPacketSize(r io.Reader) (packetSize int, err error) {
 		return
 	}
 
+	// A bufio.Reader is only peeked at: if the detection fails, drop the bytes it looked at, so that
+	// a new attempt moves on like it does with readers that have consumed them
+	if br, ok := r.(*bufio.Reader); ok {
+		defer func() {
+			if err != nil {
+				br.Discard(l)
+			}
+		}()
+	}
+
 	// Packet must start with a sync byte
 	if b[0] != syncByte {
 		err = ErrPacketMustStartWithASyncByte
